@@ -220,19 +220,23 @@ func merge[EntityT entity.Interface](def Definition, wrapper func(e *Entity) Ent
 		return entity.NewMergeError(err, id)
 	}
 
+	// Read the result of the merge (operations of both branches and the merge commit as last
+	// commit) before updating the ref: the remote entity can be valid on its own and still not be
+	// a continuation of the local history (unrelated commits holding the same operations, another
+	// root ...), in which case the local entity is left as it is.
+	mergedEntity, err := readCommit[EntityT](def, wrapper, repo, resolvers, commitHash, id)
+	if err != nil {
+		return entity.NewMergeInvalidStatus(id,
+			errors.Wrapf(err, "remote %s can't be merged with the local one", def.Typename).Error())
+	}
+
 	// finally update the ref
 	err = repo.UpdateRef(localRef, commitHash)
 	if err != nil {
 		return entity.NewMergeError(err, id)
 	}
 
-	// read again the local entity to return the merged state (operations of both branches
-	// and the merge commit as last commit), as the caller may keep and edit it.
-	mergedEntity, err := read[EntityT](def, wrapper, repo, resolvers, localRef)
-	if err != nil {
-		return entity.NewMergeError(err, id)
-	}
-
+	// the merged entity is returned, as the caller may keep and edit it
 	return entity.NewMergeUpdatedStatus(id, mergedEntity)
 }
 
